@@ -85,3 +85,45 @@ func oracleC11NextVersionIndex(gaps []int, visible []bool, parentAt int, cur int
 	exception := got == 0 && current != nil && !T.After(current.Committed)
 	vAssert(got == before || exception)
 }
+
+// C11 (pre-commit-time regime, "same-changeset forward grouping"): a visible
+// child version in the window after the query time that belongs to another
+// changeset is ignored, so taking it out of the history changes nothing about
+// which version FindVisible picks.
+//
+//@ func oracleC11IgnoredForward
+//@   props C11
+//@   oracle
+//@   covers ChildList).FindVisible
+func oracleC11IgnoredForward(gapsSec []int, visible []bool, sameCS []bool, atSec int, epsSec int) {
+	n := len(gapsSec)
+	vAssume(n >= 1 && n <= 8)
+	abs := func(x int) int {
+		if x < 0 {
+			return -x
+		}
+		return x
+	}
+	base := time.Date(2009, 1, 1, 0, 0, 0, 0, time.UTC) // before osm.CommitInfoStart: no commit times
+	eps := time.Duration(abs(epsSec)%20+1) * time.Second
+	at := base.Add(time.Duration(abs(atSec)%60) * time.Second)
+	const cid = osm.ChangesetID(7)
+	var cl, kept ChildList
+	t := base
+	for i := 0; i < n; i++ {
+		t = t.Add(time.Duration(abs(gapsSec[i])%12) * time.Second) // non-decreasing timestamps
+		c := &shared.Child{Version: i + 1, VersionIndex: i, Timestamp: t, Visible: true, ChangesetID: cid}
+		if i < len(visible) {
+			c.Visible = visible[i]
+		}
+		if i < len(sameCS) && !sameCS[i] {
+			c.ChangesetID = cid + 1
+		}
+		cl = append(cl, c)
+		ignored := c.Visible && c.Timestamp.After(at) && !c.Timestamp.After(at.Add(eps)) && c.ChangesetID != cid
+		if !ignored {
+			kept = append(kept, c)
+		}
+	}
+	vAssert(cl.FindVisible(cid, at, eps) == kept.FindVisible(cid, at, eps))
+}
